@@ -58,7 +58,24 @@ def make_stream(rng, small=False, marks=None):
             if len(inner) <= 1023:
                 parts.append(refcrc.frame(inner))
                 continue
-        if kk < 0.32:  # length field lies about the enclosed size; trailer valid for the bytes present
+        if kk < 0.30:
+            # a valid frame V = A|B never contiguous in the input: A ends a frame-shaped block X (which fails its
+            # CRC) after an NMEA-looking '$G'; an LF-terminated run N follows; then B
+            for _try in range(20):
+                v = refcrc.frame(streams.rand_unknown_payload(rng, rng.randint(6, 30)))
+                if not any(b in (0xD3, 0xB5, 0x24, 0x0A) for b in v[1:]):
+                    break
+            cut = rng.randint(6, len(v) - 3)
+            a_, b_ = v[:cut], v[cut:]
+            interior = bytes(rng.choice(streams.INERT) for _ in range(rng.randint(0, 4))) + rng.choice((b"$G", b"$P")) \
+                + bytes(rng.choice(streams.INERT) for _ in range(rng.randint(0, 3))) + a_
+            interior = interior.replace(b"\n", b"x")
+            x_ = b"\xd3" + (len(interior) - 3).to_bytes(2, "big") + interior  # last 3 bytes of A sit where X's CRC goes
+            n_ = bytes(rng.choice(streams.INERT) for _ in range(rng.randint(0, 5))).replace(b"\n", b"x") + b"\n"
+            parts.append(x_ + n_ + b_)
+            foreign = True
+            continue
+        if kk < 0.34:  # length field lies about the enclosed size; trailer valid for the bytes present
             fr, a, d = streams.length_lie(rng)
             if marks is not None:
                 marks.append(("length-lie", sum(len(x) for x in parts), (a, d)))
